@@ -60,7 +60,9 @@ def entries(model):
                 continue
             seen.add(fi.qualname)
             allowed_self = False
-            if base == '__init__' or base in SELECTOR or name.endswith('.setter'):
+            if base in ('__init__', '__setattr__', '__delattr__') or base in SELECTOR or name.endswith('.setter'):
+                # (__setattr__ *is* the assignment: writing self is its meaning; a call that assigns is charged
+                # with the store at its own site)
                 allowed_self = True
             for cname, ms in DOCUMENTED_SELF_MUTATORS.items():
                 if model.is_subclass(ci, cname) and base in ms:
